@@ -14,6 +14,9 @@ Monitor (independent of the Lean model), checked at every trigger call and after
     every event of every history;
   * `is_pipeline_active()` only at rest in `running` with no background step outstanding;
   * completing the outstanding steps (any order) brings the pipeline to rest in running/gitting;
+  * "submit and back" through the real deferred chains of both endpoints with step_2 succeeding, returning FAILED or
+    raising; a refused reset request changes nothing (farm.ARCHIVE, flags, priority); an accepted update with the
+    REAL `_reload` / `RollbackImporter` on an AE package on disk (changesets adding imports) returns to rest;
   * (for C11) `_reload` never runs while the pipeline is active, and after it the pipeline is not active again
     before `FSM.load` ran (`farm.clear` observed).
 """
@@ -55,7 +58,9 @@ TRUSTED = [
     'transitions.Machine dispatch rule (first edge in table order; conditions, before, state change, after; '
     'exceptions propagate; MachineError on an undeclared trigger) - assumed by Model/Fsm.exec, sampled by the correspondence',
     'background steps (_pipeline, _reload, _archive, _navel_gaze bodies) complete without raising; their DB / scan / git '
-    'work is stubbed at dawgie.db.*, farm.plow/notify_all/clear, pl.resources, RollbackImporter',
+    'work is stubbed at dawgie.db.*, farm.plow/notify_all/clear, pl.resources, RollbackImporter - except in the '
+    'real-reload part, which runs the real FSM._reload and RollbackImporter on valid changesets of a synthetic AE '
+    '(a changeset whose module raises when re-imported would wedge the unchanged code too: errback only logs)',
     'generated histories keep one submission Process in flight at a time and step_3 once per Process (hypothesis '
     '`Guarded` of the _partial theorems); the two scenarios that break it are run first, through the real deferred '
     'chains, and must produce exactly the known findings C10:legacy-double-step3 / C10:submit-overlap',
@@ -102,6 +107,9 @@ def apply(w, e):
         return w.ev_second_step3()
     if e in ('lgN', 'lgT', 'apN', 'apT'):
         return w.ev_chain('old' if e[:2] == 'lg' else 'api', 'now' if e[2] == 'N' else 'todo_empty')
+    if e in ('apF', 'apX', 'lgF', 'lgX'):
+        return w.ev_chain('old' if e[:2] == 'lg' else 'api', 'todo_empty',
+                          step2='failed' if e[2] == 'F' else 'raise')
     if e == 'xlg':
         return w.ev_chain('old', 'todo_empty', allow_overlap=True)
     if e in ('pe', 'pf'):
@@ -248,9 +256,20 @@ CORPUS = [
     (True, ['boot', 'c0F', 'c0F', 'da', 'up', 'c0F', 'sb_api', 'up', 'se_ok', 'up', 'up', 'c0F', 'up']),
     # ARCHIVE raised while updating: the archive excursion starts from updating
     (False, ['boot', 'c0F', 'c0F', 'up', 'fa', 'c0F', 'sb_api', 'da', 'c0T', 'c0F', 'c0F']),
+    # a reset with archive refused while a submission is staged, then back to running and an idle dispatch tick
+    (False, ['boot', 'c0F', 'c0F', 'sb_api', 'rt', 'se_ok', 'da', 'c0F']),
+    (False, ['boot', 'rt', 'c0F', 'rt', 'c0F', 'da', 'up', 'rt', 'c0F', 'c0F', 'c0F', 'da']),
     # boot twice, events before boot
     (False, ['sb_api', 'da', 'up', 'rf', 'c0F', 'boot', 'boot', 'c0F', 'boot', 'c0F', 'boot']),
 ]
+
+
+def gen_random_chain(r):
+    """histories mixing the real deferred chains (step_2 ok / FAILED / raising, compliance process ending well
+    or badly) with the other events; legacy successes are left to KNOWN_SCENARIOS"""
+    names = ['apF', 'apX', 'lgF', 'lgX', 'apT', 'pe', 'pf', 'da', 'fa', 'up', 'rf', 'rt', 'c0F', 'c0T']
+    ws = [3, 3, 3, 3, 3, 3, 2, 3, 2, 2, 1, 2, 8, 3]
+    return r.random() < 0.3, ['boot', 'c0F', 'c0F'] + r.choices(names, ws, k=r.choice([4, 8, 14]))
 
 
 def gen_random(r):
@@ -322,6 +341,13 @@ PHASE_CORPUS = [
             'raw:archiving_trigger', 'raw:update_trigger', 'c0F', 'da', 'raw:archiving_trigger',
             'raw:loading_trigger', 'raw:gitting_trigger', 'c0F']),
 ]
+# "submit and back" through the REAL deferred chains with step_2 failing (tools.submit.automatic returns FAILED
+# or raises) on both endpoints; a refused reset followed by an idle dispatch tick.  Monitor only (chain events
+# have no model line); the same events are mixed into random histories by gen_random_chain.
+CHAIN_CORPUS = [
+    (False, ['boot', 'c0F', 'c0F', 'apF', 'apX', 'lgF', 'lgX', 'apT', 'pf', 'apT', 'pe', 'apF']),
+    (True, ['boot', 'c0F', 'c0F', 'apX', 'da', 'c0T', 'lgX', 'apF', 'rt', 'c0F', 'apF', 'c0T', 'c0F', 'c0F', 'apX']),
+]
 # the witnesses of Props/C10 (`strayWitness`, `originWitness`) replayed on the real FSM: `sr` is a second
 # Process.step_3 on a legacy submission
 STRAY_CORPUS = [
@@ -329,6 +355,102 @@ STRAY_CORPUS = [
     (False, ['boot', 'c0F', 'c0F', 'sb_old', 'se_ok', 'fa', 'up', 'c0F', 'sr']),
     (False, ['boot', 'c0F', 'c0F', 'sb_old', 'se_ok', 'rf', 'c0F', 'c0F', 'sr', 'c0F']),
 ]
+
+
+RELOAD_CHANGESETS = {
+    # name: new source of <pkg>/alpha.py (the module imported at load time); `{pkg}` is the AE package
+    'unchanged': 'VERSION = 1\n',
+    'value': 'VERSION = 2222\n',
+    'known-import': 'import json\nVERSION = len(json.dumps([2]))\n',
+    'new-import': 'import {pkg}.beta\nVERSION = 2 + len({pkg}.beta.HELPER)\n',
+    'new-imports': 'import {pkg}.beta\nimport {pkg}.gamma\nVERSION = {pkg}.gamma.G + len({pkg}.beta.HELPER)\n',
+    'from-import': 'from {pkg} import gamma\nVERSION = gamma.G\n',
+}
+
+
+def real_reload_part(w, res, only=None):
+    """An accepted update_trigger with the REAL `FSM._reload` and the REAL `RollbackImporter` (installed by the
+    real `FSM.start`) working on a small AE package on disk whose changeset is applied before the update:
+    completing the background steps must bring the pipeline back to rest in running, and the reload step must
+    not die (its errback only logs, nothing would ever move the machine again)."""
+    import builtins
+    import sys
+
+    real_import = builtins.__import__
+    ctx = w.ctx
+    saved = (ctx.ae_base_package, ctx.ae_base_path, sys.dont_write_bytecode)
+    sys.dont_write_bytecode = True
+    root = os.path.join(w.tmp, 'aes')
+    os.makedirs(root, exist_ok=True)
+    if root not in sys.path:
+        sys.path.insert(0, root)
+    try:
+        for k, (name, src) in enumerate(sorted(RELOAD_CHANGESETS.items())):
+            if only is not None and name != only:
+                continue
+            real_reload_part.n = getattr(real_reload_part, 'n', 0) + 1
+            pkg = f'vc10ae{os.getpid()}x{real_reload_part.n}'
+            d = os.path.join(root, pkg)
+            os.makedirs(d)
+            for f, txt in (('__init__.py', ''), ('alpha.py', 'VERSION = 1\n'),
+                           ('beta.py', 'HELPER = "new in the changeset"\n'), ('gamma.py', 'G = 7\n')):
+                open(os.path.join(d, f), 'w').write(txt)
+            ctx.ae_base_package, ctx.ae_base_path = pkg, d
+            w.state.RollbackImporter = w.real_rollback
+            try:
+                fsm = w.fresh(False)
+                del fsm._reload                     # the real FSM._reload
+
+                def _pipeline(*a, pkg=pkg, **kw):   # what the real _pipeline does first: import the AE
+                    exec(f'import {pkg}.alpha', {})  # noqa: S102  (a real import statement, seen by the hook)
+
+                fsm._pipeline = _pipeline
+                w.ev_boot()
+                raised = []
+                for _ in range(4):
+                    if w.life():
+                        w._begin()
+                        err = w.run_rec(w.life()[0])
+                        w._end('complete', err)
+                        raised.append(err)
+                booted = fsm.state == 'running' and fsm.is_pipeline_active()
+                open(os.path.join(d, 'alpha.py'), 'w').write(src.format(pkg=pkg))
+                os.utime(os.path.join(d, 'alpha.py'), (2_000_000_000 + k, 2_000_000_000 + k))
+                o = w.ev_update()
+                steps = []
+                for _ in range(8):
+                    if not w.life():
+                        break
+                    rec = w.life()[0]
+                    w._begin()
+                    err = w.run_rec(rec)
+                    w._end('complete', err)
+                    steps.append((rec.kind, None if err is None else f'{type(err).__name__}: {err}'))
+                version = getattr(sys.modules.get(pkg + '.alpha'), 'VERSION', None)
+                rep = {'kind': 'real_reload', 'changeset': name}
+                if not booted or o['outcome'] != 'ok':
+                    res.hit('C10:real-reload-setup', f'boot/update did not go through: {fsm.state} {o}', rep)
+                elif not (w.at_rest() and fsm.is_pipeline_active()):
+                    died = [s for s in steps if s[1]]
+                    res.hit('C10:no-rest-after-real-reload',
+                            f'update_trigger was accepted; with the real _reload / RollbackImporter and a changeset '
+                            f'({name}) applied, completing the background steps {steps} leaves the pipeline at '
+                            f'{fsm.state}/{fsm.transitioning.name} active={fsm.is_pipeline_active()}'
+                            + (f': the {died[0][0]} step died ({died[0][1]}), its errback only logs' if died else ''),
+                            rep)
+                for sig, what in w.violations:
+                    if sig not in KNOWN_CAUSES:
+                        res.hit(sig, what + f' (real reload, changeset {name})', rep)
+                res.case(('real_reload', name), nontrivial=True,
+                         sample={'real_reload': name, 'steps': [s[0] for s in steps], 'VERSION': version})
+                res.count(f'real-reload:{name}:' + ('rest' if w.at_rest() else 'wedged'))
+            finally:
+                builtins.__import__ = real_import
+                w.state.RollbackImporter = w.stub_rollback
+                for m in [m for m in sys.modules if m == pkg or m.startswith(pkg + '.')]:
+                    del sys.modules[m]
+    finally:
+        ctx.ae_base_package, ctx.ae_base_path, sys.dont_write_bytecode = saved
 
 
 def run(ctx, res):
@@ -346,6 +468,14 @@ def run(ctx, res):
     for archive0, events in KNOWN_SCENARIOS:
         run_history(w, archive0, events, res, None)
         res.count('hist:known-finding-scenario')
+    for archive0, events in CHAIN_CORPUS:
+        run_history(w, archive0, events, res, None)
+        res.count('hist:chain-scenario')
+    for _ in range(600 if thorough else 120):
+        archive0, events = gen_random_chain(r)
+        run_history(w, archive0, events, res, r)
+        res.count('hist:chain-random')
+    real_reload_part(w, res)
     for archive0, events in PHASE_CORPUS + STRAY_CORPUS + CORPUS:
         obs = run_history(w, archive0, events, res, None)
         if obs is not None:
@@ -404,7 +534,9 @@ def replay(rep, res):
 def _replay(rep, res):
     w = World()
     inp = rep['input']
-    if inp['kind'] == 'hist':
+    if inp['kind'] == 'real_reload':
+        real_reload_part(w, res, only=inp['changeset'])
+    elif inp['kind'] == 'hist':
         run_history(w, inp['archive0'], inp['events'], res, None)
     elif inp['kind'] == 'forced':
         core, op = inp['core'], inp['op']
